@@ -300,14 +300,16 @@ def run_kani(pkg_dir: Path, target_dir: Path, spec: HarnessSpec, log_dir: Path,
     cmd = ["cargo", "kani", "-Z", "stubbing", "--harness", spec.qual + spec.name, "--exact",
            "--target-dir", str(target_dir)]
     if playback:
+        # only on a second run of a failed harness: the trace output multiplies formula size and
+        # kani-driver's memory use
         cmd += ["-Z", "concrete-playback", f"--concrete-playback={playback}"]
     cmd += extra_args or []
     t0 = time.time()
     with open(log_path, "w") as lf:
         p = subprocess.Popen(cmd, cwd=pkg_dir, stdout=lf, stderr=subprocess.STDOUT,
-                             env=env_offline(), preexec_fn=_limit(spec.mem_gb))
+                             env=env_offline(), preexec_fn=_limit(48 if playback else spec.mem_gb))
         try:
-            p.wait(timeout=spec.timeout_s)
+            p.wait(timeout=spec.timeout_s * (3 if playback else 1))
             timed_out = False
         except subprocess.TimeoutExpired:
             timed_out = True
